@@ -73,3 +73,14 @@ def failed_decls(lake_output):
             pass
         out.append({"file": os.path.relpath(p, LEAN), "line": line, "decl": name, "msg": msg[:300]})
     return out
+
+RACESTRESS = os.path.join(BUILD, "racestress")
+
+def build_racestress():
+    """the C03 witness hunter, built with the race detector against /repo's working tree"""
+    if os.path.exists(RACESTRESS):
+        os.remove(RACESTRESS)
+    rc, so, se = run(["go", "build", "-race", "-tags", "verif", "-o", RACESTRESS, "./cmd/racestress"], cwd=GOH, env=goenv(), timeout=1200)
+    if rc != 0:
+        return False, (so + se)[-4000:]
+    return True, ""
